@@ -213,3 +213,14 @@ def layout(B, edition, items, newref_value=None):
                     ref = ref * 10 ** st.s7
                 out.append((d, 'num', w, sc, ref, af))
     return out
+
+
+def operators_defined(edition, descs, D, depth=0):
+    """every Table C operator of the template (Table D sequences included) exists in this edition"""
+    for d in descs:
+        if F(d) == 3 and d in D and depth < 12:
+            if not operators_defined(edition, D[d], D, depth + 1):
+                return False
+        elif F(d) == 2 and defined_in(edition, X(d)) is False:
+            return False
+    return True
